@@ -29,3 +29,8 @@ pub use crate::common::datetime_utils::{
 
 #[cfg(test)]
 mod tests {}
+
+// verification hook (inert unless cfg(kani) or cfg(rnacos_verif)); see /verif/DESIGN.md
+#[cfg(any(kani, rnacos_verif))]
+#[path = "/verif/harness/root.rs"]
+pub mod verif_harness;
